@@ -293,6 +293,25 @@ def run_ops(pid, label, harness_args, stdin_path=None, timeout=7200):
     return ops, ver
 
 
+def run_external(pid, suite, runner, tier, seed, replay=None, timeout=7200):
+    """a suite whose operations are executed by more than the harness (C12: CPython + Rust core):
+    the runner script prints one verdict line per operation and keeps the joined lines in --out"""
+    rdir = os.path.join(CACHE, "run")
+    os.makedirs(rdir, exist_ok=True)
+    env = dict(ENV)
+    env.update({"OH_PY_TARGET": os.path.join(CACHE, "py-target"), "OH_HARNESS": HARNESS_BIN, "OH_DRIVER": DRIVER, "OH_REPO": REPO})
+    cmd = [sys.executable, os.path.join(VERIF, runner), tier, str(seed), "--out", rdir]
+    if replay:
+        cmd += ["--replay", replay]
+    ver = os.path.join(rdir, f"{pid}.{suite}.verdicts")
+    with open(ver, "w") as fo:
+        p = subprocess.run(cmd, stdout=fo, stderr=subprocess.PIPE, env=env, timeout=timeout)
+    if p.returncode != 0:
+        raise RuntimeError(f"runner {runner} failed rc={p.returncode}: {p.stderr.decode(errors='replace')[-2000:]}")
+    ops = os.path.join(rdir, f"py_{tier}_{seed}.joined")
+    return ops, ver
+
+
 class Tally:
     def __init__(self, cfg, findings):
         self.cfg = cfg
@@ -386,6 +405,10 @@ def main():
         log(p.stdout[-3000:])
         ok, out = build_harness()
         log(out[-1500:])
+        # the Python extension module (C12) is rebuilt by its runner on every run; build it once here
+        pe = run(["cargo", "build", "-p", "opening-hours-py", "--lib", "--offline", "--target-dir", os.path.join(CACHE, "py-target")], cwd=REPO, timeout=3600)
+        log(pe.stdout[-500:])
+        ok = ok and pe.returncode == 0
         log(f"setup done in {time.time() - t0:.0f}s (lean rc={p.returncode}, harness ok={ok})")
         sys.exit(0 if (p.returncode == 0 and ok) else 2)
 
@@ -425,7 +448,11 @@ def main():
                 for line in open(a.replay, encoding="utf-8"):
                     if line.startswith("op: "):
                         f.write(line[4:].split(" => ")[0].rstrip("\n") + "\n")
-            o, v = run_ops(pid, "replay", ["exec"], stdin_path=tmp)
+            if cfg.get("runners"):
+                suite0 = next(iter(cfg["runners"]))
+                o, v = run_external(pid, suite0, cfg["runners"][suite0], "quick", 0, replay=tmp)
+            else:
+                o, v = run_ops(pid, "replay", ["exec"], stdin_path=tmp)
             tally.feed(o, v)
         else:
             cdir = os.path.join(VERIF, "corpus", pid)
@@ -441,10 +468,17 @@ def main():
                 with open(tmp, "w") as f:
                     for fd in findings:
                         f.write(fd["witness"] + "\n")
-                o, v = run_ops(pid, "witness", ["exec"], stdin_path=tmp)
+                if cfg.get("runners"):
+                    suite0 = next(iter(cfg["runners"]))
+                    o, v = run_external(pid, suite0, cfg["runners"][suite0], "quick", 0, replay=tmp)
+                else:
+                    o, v = run_ops(pid, "witness", ["exec"], stdin_path=tmp)
                 tally.feed(o, v, keep_samples=0)
             for suite in cfg["suites"]:
-                o, v = run_ops(pid, suite, ["run", suite, tier, str(a.seed)])
+                if suite in cfg.get("runners", {}):
+                    o, v = run_external(pid, suite, cfg["runners"][suite], tier, a.seed)
+                else:
+                    o, v = run_ops(pid, suite, ["run", suite, tier, str(a.seed)])
                 tally.feed(o, v)
             # a broken obligation or a disagreement triggers the search for a failing input:
             # the thorough generator for a bounded time, with other seeds
